@@ -6,7 +6,8 @@ CONSTANTS
   MaxCrash = 0
   Concurrent = FALSE
   Uploads = TRUE
-  CheckAFixed = FALSE
+  CheckAFixed = TRUE
+  SaveRmForeign = FALSE
   SameHeight = TRUE
 VIEW view
 CHECK_DEADLOCK FALSE
